@@ -505,9 +505,9 @@ func runJob(pm chainlib.ProtocolMessage, j job, repeats int, st *stats) {
 
 func run(run *ev.Run) {
 	utils.SetGlobalLoggingLevel("fatal") // errors are still built by the code under test, only the output is dropped
-	maxN, repeats := 4, 4
+	maxN, repeats := 5, 4
 	if ev.Tier() == "thorough" {
-		maxN, repeats = 5, 4
+		maxN, repeats = 6, 3
 	}
 	var jobs []job
 	nMultisets := 0
